@@ -3,6 +3,7 @@ import A816.Props.C10
 import A816.Model.Program
 import A816.Props.C15
 import A816.Proofs.ScanLocal
+import A816.Proofs.ScanExt
 /-!
 # C16 — Output does not depend on how the source text is laid out
 
@@ -199,6 +200,51 @@ theorem blanks_between_tokens (cfg : ScanCfg) (f1 f2 : Nat) (i1 i2 : List Char) 
   exact finish_rel (sim_scanLoop cfg .initial _ _ _ hsim)
 
 
+/-! ## scanning is compositional over newline-terminated chunks -/
+open ScanS ScanX in
+/-- **the scan of `p ++ r` is the scan of `p` followed by the scan of `r`**, for every text `p` that ends with a newline
+    and scans without error (no string or comment left open), every following text `r`, and every scanner configuration
+    whose mnemonics hold no newline: the scan of `p ++ r` passes through a between-token point at which it has emitted
+    exactly the tokens of the scan of `p` (its `EOF` token apart) — positions, line numbers and quoted lines included —
+    and from there on it emits tokens with the types and texts of the scan of `r` alone and ends as that scan ends.
+    Inserting or removing blank lines, full-line comments, or whole statements *between lines* therefore changes the
+    token stream only by the tokens of the inserted lines, and a file's tokens do not depend on what is appended. -/
+theorem scan_append (cfg : ScanCfg) (hcfg : ScanP.CfgOK cfg) (f f2 : Nat) (p r : List Char)
+    (he : Ends p.toArray) (hok : (scan cfg .initial f p).error = none) :
+    ∃ s, Reach cfg .initial (initState f (p ++ r)) s ∧ s.toks = (scan cfg .initial f p).toks.pop ∧
+      ResRel s.toks.size 0 (scan cfg .initial f (p ++ r)) (scan cfg .initial f2 r) := by
+  rw [scan_eq_finish] at hok
+  cases hloop : scanLoop cfg .initial (p.length + 1) (initState f p) with
+  | error e =>
+    exfalso
+    rw [hloop] at hok
+    obtain ⟨e, s⟩ := e
+    unfold finish at hok
+    split at hok
+    · rename_i heq; cases heq
+    · cases hok
+    · split at hok <;> cases hok
+  | ok sp =>
+    obtain ⟨s, hr, h1, h2, h3, h4, h5⟩ := prefix_reach cfg hcfg he r _ (initState f p) sp rfl rfl (Nat.zero_le _) hloop
+    have hinit : ext r (initState f p) = initState f (p ++ r) := by simp [ext, initState]
+    rw [hinit] at hr
+    have h3' : s.pos ≤ p.length := by simpa using h3
+    refine ⟨ext r s, hr, ?_, ?_⟩
+    · show s.toks = _
+      rw [scan_eq_finish, hloop, h5]
+      show sp.toks = ((sp.emit .EOF).handleLine.toks).pop
+      rw [ScanS.handleLine_toks]
+      show sp.toks = (sp.toks.push _).pop
+      rw [Array.pop_push]
+    · have hrest : ((p ++ r).drop (ext r s).pos).dropWhile isBlank = (r.drop (initState f2 r).pos).dropWhile isBlank := by
+        show ((p ++ r).drop s.pos).dropWhile isBlank = (r.drop 0).dropWhile isBlank
+        rw [List.drop_append_of_le_length h3', List.drop_zero]
+        have h4' : (p.drop s.pos).all blank = true := by simpa using h4
+        exact dropWhile_append_all _ _ _ h4'
+      exact blanks_between_tokens cfg f f2 (p ++ r) r (ext r s) (initState f2 r) hr (Reach.refl _) h2 rfl
+        (by show s.pos ≤ (p ++ r).length; rw [List.length_append]; omega) (Nat.zero_le _) hrest
+
+
 /-! non-vacuity: the hypotheses of `blanks_between_tokens` hold at concrete points (checked by evaluation), and the
     conclusion is observed on the same texts (these two `example`s are tests, not the theorem) -/
 private def cfgX : ScanCfg := ⟨["nop", "lda"], ["nop"], ["db"]⟩
@@ -217,5 +263,10 @@ example : okB (bnd 2 "nop ; c\nlda #1\n".toList) (bnd 1 "nop\nlda #1\n".toList) 
   decide +kernel
 example : ((scan cfgX .initial 0 "nop ; c\nlda #1\n".toList).toks.toList.drop 2).map ScanS.key
     = ((scan cfgX .initial 0 "nop\nlda #1\n".toList).toks.toList.drop 1).map ScanS.key := by decide +kernel
+/-- non-vacuity of `scan_append`: a two-line chunk with an indented comment line ends with a newline and scans without error
+    under a configuration whose mnemonics hold no newline -/
+example : ScanX.Ends "nop\n  ; note\n".toList.toArray ∧ (scan cfgX .initial 0 "nop\n  ; note\n".toList).error = none ∧
+    ScanP.CfgOK cfgX := by
+  refine ⟨by unfold ScanX.Ends; decide, by decide +kernel, by unfold ScanP.CfgOK cfgX; decide⟩
 
 end A816.C16
